@@ -96,12 +96,15 @@ Proof. exact oracle_sound. Qed.
 (* (F1) with a limit L -- any L including 0, either mode, every router / queue kind, with or
    without a rate limiter -- after EVERY label sequence (dispatch bursts, completions, handler
    failures, kills, resizes, DrainRequests, time) the factory queue holds at most L discardable
-   jobs, and when the router queues at the workers every worker's own queue holds at most L jobs *)
+   jobs, and when the router queues at the workers every worker's own queue holds at most L jobs
+   (a worker whose actor is stopping, so that nothing can be dispatched to it until its
+   supervision event is handled, may hold max(L,1) jobs in Newest mode: one job when L = 0) *)
 Theorem C15_queue_bound : forall c L m ops,
   c_discard c = Some (L, m) ->
   let s := state_after c (fst (init c 0)) ops in
   len (filter (discardable c) (f_q s)) <= L
-  /\ (factory_queueing c = false -> forall w, In w (f_pool s) -> len (w_q w) <= L).
+  /\ (factory_queueing c = false -> forall w, In w (f_pool s) ->
+      len (w_q w) <= (if w_alive w then L else match m with Oldest => L | Newest => N.max L 1 end)).
 Proof. exact queue_bound. Qed.
 
 (* (F2) which job is shed, and that it is reported exactly once.
@@ -129,13 +132,14 @@ Theorem C15_shed_oldest_identity : forall k q x q',
 Proof. exact discard_oldest_identity. Qed.
 
 (* (F3) resize: after EVERY label sequence (resizes interleaved with dispatches, busy workers,
-   completions, failures and kills, draining), whenever the factory is alive and no worker is
-   busy, the pool is exactly the slots 0..n-1, none draining, for the last non-zero requested
+   completions, failures, kills and stopping workers, draining), whenever the factory is alive,
+   no worker is busy and no worker actor is stopping with its supervision event still pending,
+   the pool is exactly the slots 0..n-1, none draining, for the last non-zero requested
    size n (0 ignored, capped at 1_000_000; the initial size if none).  Holds for the model of the
    tree WITH fix F7; without it the statement is false (see ex_F7_scenario below and notes). *)
 Theorem C15_resize_converges : forall c ops,
   let s := state_after c (fst (init c 0)) ops in
-  f_stopped s = false -> all_available (f_pool s) = true ->
+  f_stopped s = false -> all_available (f_pool s) = true -> forallb w_alive (f_pool s) = true ->
   f_size s = target_after (c_n0 c) ops
   /\ (forall i, (exists w, find_w (f_pool s) i = Some w) <-> i < f_size s)
   /\ (forall i w, find_w (f_pool s) i = Some w -> w_drain w = false).
@@ -225,10 +229,11 @@ Check (C15_queue_bound : forall c L m ops,
   c_discard c = Some (L, m) ->
   let s := state_after c (fst (init c 0)) ops in
   len (filter (discardable c) (f_q s)) <= L
-  /\ (factory_queueing c = false -> forall w, In w (f_pool s) -> len (w_q w) <= L)).
+  /\ (factory_queueing c = false -> forall w, In w (f_pool s) ->
+      len (w_q w) <= (if w_alive w then L else match m with Oldest => L | Newest => N.max L 1 end))).
 Check (C15_resize_converges : forall c ops,
   let s := state_after c (fst (init c 0)) ops in
-  f_stopped s = false -> all_available (f_pool s) = true ->
+  f_stopped s = false -> all_available (f_pool s) = true -> forallb w_alive (f_pool s) = true ->
   f_size s = target_after (c_n0 c) ops
   /\ (forall i, (exists w, find_w (f_pool s) i = Some w) <-> i < f_size s)
   /\ (forall i w, find_w (f_pool s) i = Some w -> w_drain w = false)).
